@@ -185,7 +185,166 @@ Section Rw.
     destruct (evalS en x h) as [[[vx|] h1]|]; simpl; auto.
     rewrite ?L. simpl. rewrite (cmp_val_sym o vc vx O). reflexivity.
   Qed.
+
+  (* ---------- round 5 ---------- *)
+  (* wrapperFunc: bytes.Index(b1, b2) >= 0 | != -1  =>  bytes.Contains(b1, b2) *)
+  Theorem bytes_index_ge_preserves b1 b2 : preserves en (rw_bytes_index_ge b1 b2).
+  Proof.
+    intros h. simpl rw_rhs; simpl rw_lhs.
+    rewrite (eval_cmp_generic en OGe _ lit0 h eq_refl), !eval_prim2.
+    destruct (evalS en b1 h) as [[[v1|] h1]|]; simpl; auto.
+    destruct (evalS en b2 h1) as [[[v2|] h2]|]; simpl; auto.
+    destruct v1; simpl; auto; destruct v2; simpl; auto.
+    unfold str_contains. destruct (Z.compare_spec (str_index s s0) 0), (Z.leb_spec 0 (str_index s s0)); simpl; auto; exfalso; lia.
+  Qed.
+  Theorem bytes_index_ne_preserves b1 b2 : preserves en (rw_bytes_index_ne b1 b2).
+  Proof.
+    intros h. simpl rw_rhs; simpl rw_lhs.
+    rewrite (eval_cmp_generic en ONe _ litm1 h eq_refl), !eval_prim2.
+    destruct (evalS en b1 h) as [[[v1|] h1]|]; simpl; auto.
+    destruct (evalS en b2 h1) as [[[v2|] h2]|]; simpl; auto.
+    destruct v1; simpl; auto; destruct v2; simpl; auto.
+    unfold str_contains, str_index.
+    destruct (str_index_from_ge s0 s 0 ltac:(lia)) as [E|E].
+    - rewrite E. reflexivity.
+    - destruct (Z.compare_spec (str_index_from s0 s 0) (-1)), (Z.leb_spec 0 (str_index_from s0 s 0)); simpl; auto; exfalso; lia.
+  Qed.
+
+  Lemma str_index_any_from_ge chars : forall s i, (0 <= i)%Z -> (str_index_any_from s chars i = -1 \/ i <= str_index_any_from s chars i)%Z.
+  Proof.
+    induction s as [|a r IH]; intros i Hi; simpl; [left; reflexivity|].
+    destruct (mem_byte a chars); [right; lia|].
+    destruct (IH (i + 1)%Z ltac:(lia)) as [E|E]; [left; exact E|right; lia].
+  Qed.
+
+  (* wrapperFunc: strings.IndexAny(s1, s2) >= 0 | != -1  =>  strings.ContainsAny(s1, s2)  (ASCII operands) *)
+  Theorem index_any_ge_preserves s1 s2 : preserves en (rw_index_any_ge s1 s2).
+  Proof.
+    intros h. simpl rw_rhs; simpl rw_lhs.
+    rewrite (eval_cmp_generic en OGe _ lit0 h eq_refl), !eval_prim2.
+    destruct (evalS en s1 h) as [[[v1|] h1]|]; simpl; auto.
+    destruct (evalS en s2 h1) as [[[v2|] h2]|]; simpl; auto.
+    destruct v1; simpl; auto; destruct v2; simpl; auto.
+    destruct (is_ascii s && is_ascii s0); simpl; auto.
+    destruct (Z.compare_spec (str_index_any s s0) 0), (Z.leb_spec 0 (str_index_any s s0)); simpl; auto; exfalso; lia.
+  Qed.
+  Theorem index_any_ne_preserves s1 s2 : preserves en (rw_index_any_ne s1 s2).
+  Proof.
+    intros h. simpl rw_rhs; simpl rw_lhs.
+    rewrite (eval_cmp_generic en ONe _ litm1 h eq_refl), !eval_prim2.
+    destruct (evalS en s1 h) as [[[v1|] h1]|]; simpl; auto.
+    destruct (evalS en s2 h1) as [[[v2|] h2]|]; simpl; auto.
+    destruct v1; simpl; auto; destruct v2; simpl; auto.
+    destruct (is_ascii s && is_ascii s0); simpl; auto.
+    unfold str_index_any.
+    destruct (str_index_any_from_ge s0 s 0 ltac:(lia)) as [E|E].
+    - rewrite E. reflexivity.
+    - destruct (Z.compare_spec (str_index_any_from s s0 0) (-1)), (Z.leb_spec 0 (str_index_any_from s s0 0)); simpl; auto; exfalso; lia.
+  Qed.
+
+  (* wrapperFunc: strings.Replace(s, old, new, -1) => strings.ReplaceAll(s, old, new); bytes likewise: the operands
+     are evaluated once, in the same order, and the literal -1 has no effects *)
+  Theorem replace_all_preserves s o n : preserves en (rw_replace_all s o n).
+  Proof.
+    intros h. simpl rw_rhs; simpl rw_lhs. unfold call3. rewrite !evalS_call. simpl.
+    destruct (evalS en s h) as [[[v1|] h1]|]; simpl; auto.
+    destruct (evalS en o h1) as [[[v2|] h2]|]; simpl; auto.
+    destruct (evalS en n h2) as [[[v3|] h3]|]; simpl; auto.
+    all: try (destruct v1; simpl; auto; destruct v2; simpl; auto; destruct v3; simpl; auto).
+  Qed.
+  Theorem bytes_replace_all_preserves s o n : preserves en (rw_bytes_replace_all s o n).
+  Proof.
+    intros h. simpl rw_rhs; simpl rw_lhs. unfold call3. rewrite !evalS_call. simpl.
+    destruct (evalS en s h) as [[[v1|] h1]|]; simpl; auto.
+    destruct (evalS en o h1) as [[[v2|] h2]|]; simpl; auto.
+    destruct (evalS en n h2) as [[[v3|] h3]|]; simpl; auto.
+    all: try (destruct v1; simpl; auto; destruct v2; simpl; auto; destruct v3; simpl; auto).
+  Qed.
+
+  (* stringXbytes: string(x) == string(y) => bytes.Equal(x, y), and the != form *)
+  Lemma string_compare_refl a : String.compare a a = Eq.
+  Proof. pose proof (String.compare_antisym a a) as A. destruct (String.compare a a); simpl in A; try discriminate; reflexivity. Qed.
+  Lemma string_compare_eqb a b : cmp_ord OEq (String.compare a b) = String.eqb a b.
+  Proof.
+    destruct (String.eqb a b) eqn:E.
+    - apply String.eqb_eq in E. subst b. rewrite string_compare_refl. reflexivity.
+    - destruct (String.compare a b) eqn:C; try reflexivity.
+      apply String.compare_eq_iff in C. subst b. rewrite String.eqb_refl in E. discriminate.
+  Qed.
+  Theorem xbytes_equal_preserves x y : typeof x = Some TBytes -> typeof y = Some TBytes -> preserves en (rw_xbytes_equal x y).
+  Proof.
+    intros Tx Ty h. simpl rw_rhs; simpl rw_lhs.
+    rewrite (eval_cmp_generic en OEq _ _ h eq_refl), eval_prim2, !eval_prim1.
+    destruct (evalS en x h) as [[[v1|] h1]|] eqn:E1; simpl; auto.
+    pose proof (preservation en Hen _ _ _ _ _ Tx E1) as P1. destruct v1; try discriminate. simpl.
+    rewrite ?eval_prim1.
+    destruct (evalS en y h1) as [[[v2|] h2]|] eqn:E2; simpl; auto.
+    pose proof (preservation en Hen _ _ _ _ _ Ty E2) as P2. destruct v2; try discriminate. simpl.
+    rewrite <- string_compare_eqb. reflexivity.
+  Qed.
+  Theorem xbytes_nequal_preserves x y : typeof x = Some TBytes -> typeof y = Some TBytes -> preserves en (rw_xbytes_nequal x y).
+  Proof.
+    intros Tx Ty h. simpl rw_rhs; simpl rw_lhs.
+    rewrite (eval_cmp_generic en ONe _ _ h eq_refl), !eval_prim1.
+    change (evalS en (EUnary UNot (call2 PBytesEqual x y)) h) with
+      (bind (evalS en (call2 PBytesEqual x y) h) (fun v h1 => lift (unop_apply UNot v) h1)).
+    rewrite eval_prim2.
+    destruct (evalS en x h) as [[[v1|] h1]|] eqn:E1; simpl; auto.
+    pose proof (preservation en Hen _ _ _ _ _ Tx E1) as P1. destruct v1; try discriminate. simpl.
+    rewrite ?eval_prim1.
+    destruct (evalS en y h1) as [[[v2|] h2]|] eqn:E2; simpl; auto.
+    pose proof (preservation en Hen _ _ _ _ _ Ty E2) as P2. destruct v2; try discriminate. simpl.
+    pose proof (string_compare_eqb s s0) as Q. destruct (String.compare s s0), (String.eqb s s0); simpl in *; try discriminate; reflexivity.
+  Qed.
+
+  (* stringConcatSimplify with the empty glue *)
+  Theorem join2_empty_preserves x y : typeof x = Some TString -> typeof y = Some TString -> preserves en (rw_join2_empty x y).
+  Proof.
+    intros Tx Ty h. simpl rw_rhs; simpl rw_lhs. rewrite evalS_call. simpl.
+    destruct (evalS en x h) as [[[v1|] h1]|] eqn:E1; simpl; auto.
+    pose proof (preservation en Hen _ _ _ _ _ Tx E1) as P1. destruct v1; try discriminate.
+    destruct (evalS en y h1) as [[[v2|] h2]|] eqn:E2; simpl; auto.
+  Qed.
+  Theorem join3_empty_preserves x y z : typeof x = Some TString -> typeof y = Some TString -> typeof z = Some TString ->
+    preserves en (rw_join3_empty x y z).
+  Proof.
+    intros Tx Ty Tz h. simpl rw_rhs; simpl rw_lhs. rewrite evalS_call. simpl.
+    destruct (evalS en x h) as [[[v1|] h1]|] eqn:E1; simpl; auto.
+    pose proof (preservation en Hen _ _ _ _ _ Tx E1) as P1. destruct v1; try discriminate.
+    destruct (evalS en y h1) as [[[v2|] h2]|] eqn:E2; simpl; auto.
+    pose proof (preservation en Hen _ _ _ _ _ Ty E2) as P2. destruct v2; try discriminate. simpl.
+    destruct (evalS en z h2) as [[[v3|] h3]|] eqn:E3; simpl; auto.
+    pose proof (preservation en Hen _ _ _ _ _ Tz E3) as P3. destruct v3; try discriminate. simpl.
+    rewrite app_assoc_s. reflexivity.
+  Qed.
+
+  (* equalFold, both sides lower-cased, ASCII operands: whenever the original is inside the fragment, the
+     suggestion has the same outcome *)
+  Theorem equal_fold_both_lower_preserves_partial x y : forall h o,
+    evalS en (rw_lhs (rw_equal_fold_both x y)) h = Some o -> evalS en (rw_rhs (rw_equal_fold_both x y)) h = Some o.
+  Proof.
+    intros h o. simpl rw_rhs; simpl rw_lhs.
+    rewrite (eval_cmp_generic en OEq _ _ h eq_refl), eval_prim2, !eval_prim1.
+    destruct (evalS en x h) as [[[v1|] h1]|]; simpl; auto.
+    destruct v1; simpl; try discriminate.
+    destruct (is_ascii s) eqn:A1; simpl; try discriminate.
+    rewrite ?eval_prim1.
+    destruct (evalS en y h1) as [[[v2|] h2]|]; simpl; auto.
+    destruct v2; simpl; try discriminate.
+    destruct (is_ascii s0) eqn:A2; simpl; try discriminate.
+    unfold str_equal_fold. rewrite <- string_compare_eqb. auto.
+  Qed.
 End Rw.
+
+(* equalFold, one side only: `strings.ToLower(x) == y` is false for y = "A", EqualFold(x, y) is true *)
+Theorem equal_fold_one_sided_refuted :
+  exists en x y, env_ok en /\ equal_fold_filter x y = true /\
+    eval en (rw_lhs (rw_equal_fold_left x y)) = Some (RVal (VBool false), []) /\
+    eval en (rw_rhs (rw_equal_fold_left x y)) = Some (RVal (VBool true), []).
+Proof.
+  exists (env_of [("x", VStr "a"); ("y", VStr "A")] []), (EIdent "x" TString), (EIdent "y" TString).
+  split; [apply env_of_ok|]. vm_compute. repeat split.
+Qed.
 
 (* ---- refutations ---- *)
 (* timeExprSimplify: seconds/1000 is not milliseconds; nanoseconds*1000 is not microseconds *)
@@ -313,3 +472,21 @@ Qed.
 Theorem defer_unlambda_func_var_refuted :
   exists c st1 st2, defer_unlambda_flags c = true /\ callee_eval st1 c <> callee_eval st2 c.
 Proof. exists (CFuncVar "cleanup"), st_a, st_b. split; [reflexivity|discriminate]. Qed.
+
+(* unslice needs its type filter: for a pointer to an array `p[:]` is a slice of the array, `p` is the pointer;
+   with a nil pointer the original panics and the replacement yields a value *)
+Theorem unslice_pointer_to_array_refuted :
+  exists en s, env_ok en /\ typeof s = Some TPArr /\ typeof (rw_lhs (rw_unslice s)) = Some TInts /\
+    eval en (rw_lhs (rw_unslice s)) = Some (RVal (VInts [1; 2; 3]%Z), []) /\
+    eval en (rw_rhs (rw_unslice s)) = Some (RVal (VPArr 3 (Some [1; 2; 3]%Z)), []).
+Proof.
+  exists (env_of [("pa", VPArr 3 (Some [1; 2; 3]%Z))] []), (EIdent "pa" TPArr).
+  split; [apply env_of_ok|]. vm_compute. repeat split.
+Qed.
+Theorem unslice_nil_pointer_to_array_refuted :
+  exists en s, env_ok en /\ typeof s = Some TPArr /\
+    eval en (rw_lhs (rw_unslice s)) = Some (RPanic, []) /\ eval en (rw_rhs (rw_unslice s)) = Some (RVal (VPArr 3 None), []).
+Proof.
+  exists (env_of [("pa", VPArr 3 None)] []), (EIdent "pa" TPArr).
+  split; [apply env_of_ok|]. vm_compute. repeat split.
+Qed.
